@@ -135,7 +135,7 @@ class Run:
             cmd += ["-coverage", "1"]
         cmd.append(module + ".tla")
         env = dict(os.environ)
-        jto = "-Xss64m"
+        jto = "-Xss512m"
         if deque:
             jto += " -Dtlc2.tool.queue.IStateQueue=StateDeque"
         env["JAVA_TOOL_OPTIONS"] = jto
@@ -189,9 +189,10 @@ class Run:
             violated = mv.group(1)
         elif re.search(r"Error: (Temporal properties were violated|Action property \S+ is violated|Deadlock reached)", text):
             violated = re.search(r"Error: (.*)", text).group(1)
-        completed = ("Model checking completed. No error has been found" in text) or \
+        post_failed = bool(re.search(r"Error: Postcondition \S+ .*is false", text))
+        completed = post_failed or ("Model checking completed. No error has been found" in text) or \
                     (simulate is not None and (capped or "states checked" in text or p.returncode == 0))
-        res = dict(ok=False, states=gen, distinct=dist, depth=int(md.group(1)) if md else 0, cases=ncases, out=outp,
+        res = dict(ok=False, post_failed=post_failed, states=gen, distinct=dist, depth=int(md.group(1)) if md else 0, cases=ncases, out=outp,
                    violated=violated, wall=wall, dir=d, text=text)
         stage = dict(stage=label, engine="tlc", generated=gen, distinct=dist, cases=ncases, wall_s=round(wall, 1))
         self.stages.append(stage)
@@ -205,7 +206,7 @@ class Run:
         if not completed:
             tail = "\n".join(text.splitlines()[-25:])
             raise Inconclusive("TLC failed on %s (exit %s):\n%s" % (label, p.returncode, tail))
-        res["ok"] = True
+        res["ok"] = not post_failed
         self.states += dist
         self.transitions += gen
         log("[tlc] %-28s %9d generated %9d distinct %7d cases  %.1fs" % (label, gen, dist, ncases, wall))
@@ -372,6 +373,8 @@ class Run:
         lines = open(trace_path).read().splitlines()
         # the trace containing line `at` (1-based; at = first line that could not be consumed)
         start = min(at, len(lines)) - 1
+        if 0 < start < len(lines) and '"e":"reset"' in lines[start].replace(" ", ""):
+            start -= 1   # a reset line that cannot be consumed: the *previous* execution's final state was rejected
         while start > 0 and '"e":"reset"' not in lines[start].replace(" ", ""):
             start -= 1
         end = start + 1
